@@ -194,7 +194,25 @@ func B(b bool) *Term {
 	return False
 }
 
-func Const(w int, v uint64) *Term { return mk(OConst, BV(w), v&mask(w), "", 0, 0) }
+var smallConst [65][]*Term
+
+func Const(w int, v uint64) *Term {
+	v &= mask(w)
+	if v < 256 && w <= 64 {
+		tab := smallConst[w]
+		if tab == nil {
+			tab = make([]*Term, 256)
+			smallConst[w] = tab
+		}
+		if t := tab[v]; t != nil {
+			return t
+		}
+		t := mk(OConst, BV(w), v, "", 0, 0)
+		tab[v] = t
+		return t
+	}
+	return mk(OConst, BV(w), v, "", 0, 0)
+}
 func ConstS(w int, v int64) *Term { return Const(w, uint64(v)) }
 func ConstF(f float64) *Term      { return mk(OConst, FP64, math.Float64bits(f), "", 0, 0) }
 func Var(name string, s Sort) *Term {
